@@ -81,8 +81,17 @@ def lookupChar (c : Char) : List (Char × Int) → Option Int
   | [] => none
   | (k, v) :: r => if k == c then some v else lookupChar c r
 
-/-- `parse_size`: `None` (no match), a ValueError (bad float) or the exact number of bytes -/
-def parseSize (s0 : Str) : Except Err (Option Rat') :=
+/-- the parts `parse_size` extracts: number, unit exponent `u`, base `i`, divisor `b` -/
+structure SizeParts where
+  num : Dec
+  exp : Nat
+  base : Int
+  divisor : Int
+  deriving Repr, DecidableEq
+
+/-- the scanner of `parse_size` (regular expression, `float()` syntax, unit letters) without the
+arithmetic: `None` (no match), a ValueError (bad float) or the parts -/
+def scanSize (s0 : Str) : Except Err (Option SizeParts) :=
   let s := strip s0
   let num := s.takeWhile isNumCh
   if num.isEmpty then .ok none else
@@ -104,10 +113,19 @@ def parseSize (s0 : Str) : Except Err (Option Rat') :=
         let exp : Nat := match u with | some i => (i + sizeUnitOffset.toNat) | none => 0
         let base := if bin then sizeBinaryBase else sizeDecimalBase
         match lookupChar b sizeBitDivisor with
-        | some q => .ok (some (d.scale (base ^ exp) q.toNat))
+        | some q => .ok (some ⟨d, exp, base, q⟩)
         | none => .error .keyError
     else .ok none
   | _ => .ok none
+
+/-- `parse_size`: `None` (no match), a ValueError (bad float) or the exact number of bytes
+`number · base^exp / divisor` (the reading in binary64, as Python computes it, is
+`parseSizeF` in `Rotation/FloatParsers.lean`) -/
+def parseSize (s0 : Str) : Except Err (Option Rat') :=
+  match scanSize s0 with
+  | .ok (some p) => .ok (some (p.num.scale (p.base ^ p.exp) p.divisor.toNat))
+  | .ok none => .ok none
+  | .error e => .error e
 
 /-! #### parse_duration -/
 
